@@ -115,6 +115,12 @@ func (s *Snapshot) GetWithFilters(ctx context.Context, key []byte, filters ...Fi
 		return nil, err
 	}
 
+	// filters apply to what the reader is given: the pending write of the ongoing transaction, if any
+	// (as key readers do)
+	if s.refInterceptor != nil {
+		valRef = s.refInterceptor(key, valRef)
+	}
+
 	for _, filter := range filters {
 		if filter == nil {
 			return nil, fmt.Errorf("%w: invalid filter function", ErrIllegalArguments)
@@ -124,10 +130,6 @@ func (s *Snapshot) GetWithFilters(ctx context.Context, key []byte, filters ...Fi
 		if err != nil {
 			return nil, err
 		}
-	}
-
-	if s.refInterceptor != nil {
-		return s.refInterceptor(key, valRef), nil
 	}
 
 	return valRef, nil
